@@ -154,10 +154,11 @@ def run_tlc(module, cfg, env=None, workers=1, timeout=1800, mode="bfs", seed=Non
     return res
 
 
-def run_harness(cases_path, trace_path, timeout=3600, binary=None):
+def run_harness(cases_path, trace_path, timeout=3600, binary=None, env=None):
     t0 = time.time()
     try:
         p = subprocess.run([binary or HARNESS, "replay", cases_path, trace_path], stdout=subprocess.PIPE,
+                           env=dict(os.environ, **{k: str(v) for k, v in (env or {}).items()}),
                            stderr=subprocess.STDOUT, text=True, timeout=timeout)
     except subprocess.TimeoutExpired:
         raise ToolError("harness timeout")
@@ -215,7 +216,7 @@ class Stage:
     """one generator -> harness -> validator pass"""
     def __init__(self, name, gen, trace, mc=(), env=None, gen_workers=1, trace_env=None,
                  required=(), simulate=None, gen_timeout=1800, trace_timeout=3600, shards=1,
-                 executor=None, harness_bin=None, stop_on_violation=False):
+                 executor=None, harness_bin=None, stop_on_violation=False, harness_env=None):
         self.name = name
         self.gen = gen              # (module, cfg)
         self.trace = trace          # (module, cfg)
@@ -231,6 +232,7 @@ class Stage:
         self.executor = executor            # callable(cases_path, trace_path) instead of the Rust harness
         self.harness_bin = harness_bin      # alternative harness binary (C20: serde build)
         self.stop_on_violation = stop_on_violation
+        self.harness_env = harness_env or {}    # e.g. HARNESS_THREADS=1 where the call order matters
 
 
 class Outcome:
@@ -329,7 +331,7 @@ def run_stage(st, prop, tier, seed, out, replay=None):
     if st.executor is not None:
         st.executor(cases_path, trace_path)
     else:
-        run_harness(cases_path, trace_path, binary=st.harness_bin)
+        run_harness(cases_path, trace_path, binary=st.harness_bin, env=st.harness_env)
     evs = {}
     with open(trace_path) as f:
         for line in f:
@@ -386,11 +388,25 @@ def run_stage(st, prop, tier, seed, out, replay=None):
     groups = {}
     for i, g in group_of.items():
         groups.setdefault(g, []).append(i)
+    # the replay file holds CASES (what the generator emitted), looked up through the case id
+    cases_by_cid = {}
+    with open(cases_path) as f:
+        for line in f:
+            try:
+                c = json.loads(line)
+                cases_by_cid[c.get("cid")] = c
+            except Exception:
+                pass
     for b in bads:
         failed = [c for c in b["failed"] if c.startswith(prop + ".")]
         if failed:
             ev = evs[b["id"]]
-            grp = [evs[i] for i in groups.get(group_of.get(b["id"]), [])] if group_of else None
+            members = [evs[i] for i in groups.get(group_of.get(b["id"]), [])] if group_of else [ev]
+            cids = []
+            for m in members:
+                if m.get("cid") not in cids:
+                    cids.append(m.get("cid"))
+            grp = [cases_by_cid[c] for c in cids if c in cases_by_cid]
             out.bad.append((st.name, ev, failed, grp))
     if replay is None:
         missing = [c for c in st.required if out.cov.get(c, 0) == 0]
@@ -489,13 +505,12 @@ def main(argv, registry):
             with open(path, "w") as f:
                 seen = set()
                 for ev, failed, grp in items:
-                    for gev in (grp or [ev]):
-                        cid = gev.get("cid")
+                    for case in grp:
+                        cid = case.get("cid")
                         if cid in seen:
                             continue
                         seen.add(cid)
-                        c = {k: v for k, v in gev.items() if k not in ("id",)}
-                        f.write(json.dumps(c, separators=(",", ":")) + "\n")
+                        f.write(json.dumps(case, separators=(",", ":")) + "\n")
                     if len(seen) > 20000:
                         break
             ev, failed, _ = items[0]
